@@ -1,8 +1,9 @@
 pub mod c12;
+pub mod c13;
 pub mod c14;
 
 use cvx_core::engine::Check;
 
 pub fn registry() -> Vec<&'static dyn Check> {
-    vec![&c12::C12, &c14::C14]
+    vec![&c12::C12, &c13::C13, &c14::C14]
 }
